@@ -152,7 +152,11 @@ func processStorageKeys(storageKeys []StorageKeys) ([]StorageKeys, *jsonrpc.Erro
 		return nil, nil
 	}
 
-	merged := make(map[felt.Felt][]felt.Felt, len(storageKeys))
+	// Merge the keys of a contract that is listed more than once, keeping the contracts in
+	// the order in which they first appear in the request: contracts_storage_proofs[i] is the
+	// proof for the i-th distinct contract (a Go map would return them in random order).
+	position := make(map[felt.Felt]int, len(storageKeys))
+	uniqueStorageKeys := make([]StorageKeys, 0, len(storageKeys))
 	for _, sk := range storageKeys {
 		// Ensure that both contract and keys are provided
 		if sk.Contract == nil {
@@ -163,12 +167,19 @@ func processStorageKeys(storageKeys []StorageKeys) ([]StorageKeys, *jsonrpc.Erro
 		}
 
 		contract := *sk.Contract
-		merged[contract] = append(merged[contract], sk.Keys...)
+		if i, ok := position[contract]; ok {
+			uniqueStorageKeys[i].Keys = append(uniqueStorageKeys[i].Keys, sk.Keys...)
+			continue
+		}
+		position[contract] = len(uniqueStorageKeys)
+		uniqueStorageKeys = append(uniqueStorageKeys, StorageKeys{
+			Contract: &contract,
+			Keys:     append([]felt.Felt(nil), sk.Keys...),
+		})
 	}
 
-	uniqueStorageKeys := make([]StorageKeys, 0, len(merged))
-	for contract, keys := range merged {
-		uniqueStorageKeys = append(uniqueStorageKeys, StorageKeys{Contract: &contract, Keys: utils.Set(keys)})
+	for i := range uniqueStorageKeys {
+		uniqueStorageKeys[i].Keys = utils.Set(uniqueStorageKeys[i].Keys)
 	}
 
 	return uniqueStorageKeys, nil
